@@ -400,7 +400,13 @@ fn gen_c19(tier: &str, rng: &mut Rng, emit: &mut dyn FnMut(Op)) {
     }
     // depend: {valid, invalid} pattern x {valid, invalid} path x 0..3 colons
     let pats = ["foo-[0-9]*", "foo>=1", "{a,b}-1", "foo", "", "foo>1>2", "foo-[0-9", "{a", "a}b{", "foo<1<2<3", "é*"];
-    let pths = ["a/b", "../../a/b", "a//b/", "a", "", "../a/b", "a/b/c", "./a/b", "/a/b", "a/.."];
+    let pths = ["a/b", "../../a/b", "a//b/", "a", "", "../a/b", "a/b/c", "./a/b", "/a/b", "a/..",
+        // the path half is parsed exactly like PkgPath::new parses it on its own
+        "../../../../a/b", "../..//a/b", "..//../a/b", "../../a/b/", "../../../a/b", "../../a", "../../a/b/c", "../../a/./b"];
+    for q in &paths {
+        // every PKGPATH spelling of the C19 path generator also as the path half of a Depend
+        emit(Op::s("depend.new", &[&format!("foo>=1:{}", q)]));
+    }
     for p in pats {
         for q in pths {
             emit(Op::s("depend.new", &[&format!("{}:{}", p, q)]));
@@ -459,7 +465,7 @@ fn expand(seq: &[Item]) -> Vec<String> {
 }
 
 fn rand_seq(rng: &mut Rng, depth: usize, groups_left: &mut usize, top: bool) -> Vec<Item> {
-    let lits: [&str; 12] = ["a", "b", "c", "-1.0", ">=1", "*", "[0-9]", "<2", "-", "", "x-", "1"];
+    let lits: [&str; 15] = ["a", "b", "c", "-1.0", ">=1", "*", "[0-9]", "<2", "-", "", "x-", "1", " ", " b", "a "];
     let n = rng.range(if top { 1 } else { 0 }, 3);
     let mut seq = vec![];
     for _ in 0..n {
@@ -519,6 +525,14 @@ fn gen_c04(tier: &str, rng: &mut Rng, emit: &mut dyn FnMut(Op)) {
         ("{a>1<2,b}", vec!["a-1.5", "a-2", "b"]),
         ("{a,b>1>2}", vec!["a", "b-3"]),
         ("{a,[}", vec!["a", "["]),
+        // blanks are ordinary characters of an alternative, never trimmed
+        ("x{a, b}-1", vec!["xa-1", "x b-1", "xb-1", "xa,-1"]),
+        ("{ a,b }", vec![" a", "b ", "a", "b"]),
+        ("py{ ,3}-foo>=1", vec!["py -foo-1", "py3-foo-2", "py-foo-1"]),
+        ("{a,\tb}c", vec!["ac", "\tbc", "bc"]),
+        // an expansion whose text after the group is part of a version bound
+        ("pkg>={1,2}0", vec!["pkg-15", "pkg-9", "pkg-25", "pkg-20"]),
+        ("pkg-{1,2}.0", vec!["pkg-1.0", "pkg-2.0", "pkg-3.0"]),
     ];
     for (p, names) in &fixed {
         emit(Op::s("pattern.new", &[p]));
@@ -637,12 +651,14 @@ fn gen_c04(tier: &str, rng: &mut Rng, emit: &mut dyn FnMut(Op)) {
 
 fn gen_c05(tier: &str, rng: &mut Rng, emit: &mut dyn FnMut(Op)) {
     let thorough = tier == "thorough";
-    let ptoks: [&str; 22] = [
+    let ptoks: [&str; 26] = [
         "a", "b", "-", ".", "1", "]", "*", "?", "[ab]", "[a-c]", "[!a]", "[]a]", "[!]]", "[a-]", "[-a]",
         "[a-c-e]", "[!a-c]", "[1-9]", "[b-a]", "[a]", "c", "[!-]",
+        // '^' is an ordinary member of a set (only '!' negates)
+        "[^a]", "[^]", "[a^]", "^",
     ];
     let bad: [&str; 12] = ["[", "[a", "[!", "[!]", "a[", "***", "[]", "a**", "**", "**/a", "a/**", "a/**/b"];
-    let sigma = ["a", "b", "c", "-", "1", "]"];
+    let sigma = ["a", "b", "c", "-", "1", "]", "^"];
     let mut names: Vec<String> = vec![String::new()];
     {
         let mut cur = vec![String::new()];
@@ -677,7 +693,15 @@ fn gen_c05(tier: &str, rng: &mut Rng, emit: &mut dyn FnMut(Op)) {
         pats.push(format!("a{}", b2));
         pats.push(format!("{}a", b2));
     }
-    pats.extend(["foo-[0-9]*", "fo?-[0-9]*", "*oo-[0-9]*", "é*", "*é", "[é]x", "[!é]x", "?", "*", "a*b*c", "*a*"].map(String::from));
+    pats.extend(["foo-[0-9]*", "fo?-[0-9]*", "*oo-[0-9]*", "é*", "*é", "[é]x", "[!é]x", "?", "*", "a*b*c", "*a*",
+        "foo-[^0-9]*", "a-[0-9]*", "a-b-[0-9]*"].map(String::from));
+    // whole-name match: the trailing '*' of base-[0-9]* takes any run, further hyphens included
+    for (p, n) in [("foo-[0-9]*", "foo-1.0-rc1"), ("foo-[0-9]*", "foo-1-2"), ("foo-[0-9]*", "foo-1-"),
+        ("foo-[0-9]*", "foo-2024-01-01"), ("foo-[0-9]*", "foo-bar-1"), ("a-[0-9]*", "a-1-1"), ("a-b-[0-9]*", "a-b-1-c"),
+        ("foo-[^0-9]*", "foo-1.0"), ("foo-[^0-9]*", "foo-^1"), ("foo-[^0-9]*", "foo-a1"), ("foo-[^]", "foo-^")] {
+        emit(Op::s("pattern.match", &[p, n]));
+        emit(Op::s("glob.match", &[p, n]));
+    }
     pats.sort();
     pats.dedup();
     let per = if thorough { 120 } else { 14 };
@@ -752,7 +776,9 @@ fn gen_c06(tier: &str, rng: &mut Rng, emit: &mut dyn FnMut(Op)) {
     let thorough = tier == "thorough";
     let pats = ["foo-[0-9]*", "foo>=1", "foo>1<3", "{foo,bar}-[0-9]*", "{foo,bar}>=1", "foo-1.0", "*-[0-9]*", "*", "{foo,bar,baz}-*", "f*"];
     let bases = ["foo", "bar", "baz", "fo", "foo-x"];
-    let vers = ["1", "1.0", "1.0.0", "1.0nb1", "1.1", "2", "2.0", "3", "0.5", "1a", "1.5", "1.0alpha", "1.0rc1", "1_0", "1.0pl", "10", "1.97", "1.0a"];
+    let vers = ["1", "1.0", "1.0.0", "1.0nb1", "1.1", "2", "2.0", "3", "0.5", "1a", "1.5", "1.0alpha", "1.0rc1", "1_0", "1.0pl", "10", "1.97", "1.0a",
+        // pre = rc = -1 (one component each); characters that only LOOK like letters are ignored
+        "1.0pre1", "1.0pre2", "1.0rc2", "1.0PRE1", "1.0\u{212A}", "1.0\u{130}", "1.0\u{17F}", "1.0k"];
     let mk = |rng: &mut Rng| -> String {
         match rng.below(12) {
             0 => rng.pick(&bases).to_string(),
